@@ -29,7 +29,7 @@ JOBS = {'quick': 4, 'thorough': 16}
 REQUIRED_MONITORS = ('cli_vs_library_bytes', 'discovery_vs_truth', 'discovery_hash_seeds', 'real_cli_process', 'cli_hash_seeds')
 REQUIRED_CLASSES = ('mol:explicit-only', 'mol:explicit+auto', 'auto-only', 'exclude', 'exclude:several', 'output:given', 'output:default',
                     'input:other-directory', 'distractor:absent-species-topology', 'distractor:foreign-coordinates',
-                    'distractor:unknown-extension', 'distractor:system-file-in-list', 'distractor:previous-output',
+                    'distractor:unknown-extension', 'distractor:system-file-in-list', 'distractor:previous-output', 'distractor:impostor-topology',
                     'species-without-end-files', 'explicit-also-in-list', 'mol:end-topology-named-differently', 'candidates:files-listed-twice', 'paths:explicit-and-listed-spelled-differently', 'scale:non-default', 'output-path:absolute',
                     'output-path:relative-plain', 'output-path:relative-subdir')
 RULE = ('generated directories of 2-4 species with distractor files (topologies of absent species, foreign coordinate files, '
@@ -96,6 +96,16 @@ def add_distractors(rng, w, which):
             p = os.path.join(root, name)
             with open(p, 'w') as fh:
                 fh.write('not a gromacs file\n')
+            extra.append(p)
+    if 'impostor-topology' in which:
+        # topologies of another model of a species that IS in the system: same residue names and sizes as its start
+        # topology (so the first look at the coordinate file matches), other atom names, another molecule name
+        for k, n in enumerate(list(w['files'])[:2]):
+            sp = dict(w['species'][n])
+            sp['name'] = f'{n}_M3'
+            sp['atoms'] = [(f'Z{j}', rn, rid) for j, (_, rn, rid) in enumerate(sp['atoms'])]
+            p = os.path.join(root, f'{"aAzZ"[k * 2 + int(rng.integers(0, 2))]}_impostor_{n}.itp')
+            sysgen.write_species_itp(sp, p)
             extra.append(p)
     if 'system-file-in-list' in which:
         extra.append(w['system_gro'])
@@ -272,7 +282,7 @@ def run_world(ctx, case):
         shutil.rmtree(root, ignore_errors=True)
         return
     dist = [d for d in ('absent-species-topology', 'foreign-coordinates', 'unknown-extension', 'system-file-in-list',
-                        'previous-output') if rng.random() < 0.6]
+                        'previous-output', 'impostor-topology') if rng.random() < 0.6]
     extra = add_distractors(rng, w, dist)
     for d in dist:
         ctx.hit('distractor:' + d)
